@@ -214,3 +214,41 @@ fn c16_merge_pairs_symmetric_triples_associative() {
     }
     println!("CASES c16_merge_laws {cases}");
 }
+
+/// packed evidence is outside C16's finite domain, but it is combined by the same `merge` and the same fold: the
+/// pairwise outcome must not depend on which side is the left one (struct flag, span list)
+#[test]
+fn c16_packed_pairs_symmetric() {
+    use storage_layout_extractor::tc::expression::Span;
+    std::panic::set_hook(Box::new(|_| {}));
+    let mut st = TypeCheckerState::empty();
+    let vs: Vec<TypeVariable> = (0..4).map(|i| st.register(RSV::new_value(i, Provenance::Synthetic))).collect();
+    let parent = st.register(RSV::new_value(9, Provenance::Synthetic));
+    let span_lists: Vec<Vec<Span>> = vec![
+        vec![Span::new(vs[0], 0, 256)],
+        vec![Span::new(vs[0], 0, 128), Span::new(vs[1], 128, 128)],
+        vec![Span::new(vs[0], 0, 8), Span::new(vs[1], 8, 160)],
+        vec![Span::new(vs[2], 0, 64), Span::new(vs[1], 64, 64), Span::new(vs[3], 128, 128)],
+    ];
+    let mut cases = 0;
+    for s1 in &span_lists {
+        for s2 in &span_lists {
+            for (a, b) in [(TE::packed_of(s1.clone()), TE::struct_of(s2.clone())), (TE::struct_of(s1.clone()), TE::struct_of(s2.clone())), (TE::packed_of(s1.clone()), TE::packed_of(s2.clone()))] {
+                let ab = catch_unwind(AssertUnwindSafe(|| merge(a.clone(), b.clone(), parent, &mut st)));
+                let ba = catch_unwind(AssertUnwindSafe(|| merge(b.clone(), a.clone(), parent, &mut st)));
+                let (Ok(ab), Ok(ba)) = (ab, ba) else { witness("C16", "merge.symmetric", format!("merge({}, {})", show(&a), show(&b)), "PANIC".into(), "a result".into()); continue };
+                // compare what does not depend on fresh-variable naming: conflict or not, the struct flag, the span geometry
+                let shape = |e: &TE| match e {
+                    TE::Conflict { .. } => "conflict".to_string(),
+                    TE::Packed { types, is_struct } => format!("packed struct={is_struct} spans={:?}", types.iter().map(|s| (s.offset, s.size)).collect::<Vec<_>>()),
+                    other => show(other),
+                };
+                if shape(&ab.expression) != shape(&ba.expression) {
+                    witness("C16", "merge.symmetric", format!("a={} b={}", show(&a), show(&b)), format!("merge(a,b)={} merge(b,a)={}", shape(&ab.expression), shape(&ba.expression)), "the same outcome".into());
+                }
+                cases += 1;
+            }
+        }
+    }
+    println!("CASES c16_packed_pairs {cases}");
+}
